@@ -19,10 +19,23 @@
   (before 2c3eae7 the write loop reported a failed write before terminating the connection, so the call
   issued right after the failed one could still fail with the same error).
 
-  Scope as for C10: theorems about the modelled state machine; goroutine reclamation, sockets and the
-  Go scheduler are observed by the harness (`lts.cli`), not proved.
+  PROGRESS. `progress` = the steps of the client's goroutines, of the transport completing a write and of the
+  server answering (nothing fails, nobody cancels or closes). Every progress step of every reachable state
+  strictly decreases the ranking function `measure` (`progress_terminates`): between two disturbances the system
+  comes to rest after boundedly many steps, so the quiescence statements below (`no_stuck`, `no_hang`) are
+  statements about states that ARE reached. `clean_call_succeeds`: a call during which nothing fails returns
+  its response on every maximal run of progress steps — it is never blocked, never ends in an error.
+
+  RETRY BUDGET. `current.retries` (the `retry := 3` of `doRountrip`) is a parameter; the harness observes the
+  budget of the real code (a call whose every connection is dropped: number of request messages on the wire) and
+  compares it with the model's (`lts.budget`), and runs every scenario under the observed budget.
+
+  Scope as for C10: theorems about the modelled (fused, see C10) state machine; goroutine reclamation, sockets
+  and the Go scheduler are observed by the harness (`lts.cli`), not proved. Dials always return (success or
+  failure); a dial that blocks until its context ends is exercised by the harness only.
 -/
 import KmipModel.Lemmas.CliCert
+import KmipModel.Lemmas.CliProgress
 import KmipModel.Props.C07
 namespace Kmip.C11
 open Kmip.CliLts Kmip.CliConn Kmip.Gen.CertCliConn
@@ -31,7 +44,7 @@ theorem cliconn_closed : closedUnder (sys current) codec certCurrent := CliCert.
 
 /-- 1. No panic: neither a send on a closed channel nor a nil dereference in `Close`. -/
 theorem no_crash {s : St} (h : Reachable (sys current) s) : s.panic = 0 := by
-  have := (CliCert.bad_false (CliCert.current_inv h)).2.2.2.1
+  have := (CliCert.current_good h).panic
   simpa [badPanic] using this
 
 /-- 2. A pending call never hangs once it has a reason to return: whenever the caller's context is
@@ -39,7 +52,7 @@ theorem no_crash {s : St} (h : Reachable (sys current) s) : s.panic = 0 := by
     (no waiting for the peer). -/
 theorem no_hang {s : St} (h : Reachable (sys current) s) (hk : kActive s = true)
     (hr : s.kctx = true ∨ (s.has = true ∧ s.cause ≠ 0)) : stepInt current s ≠ [] := by
-  have hb := (CliCert.bad_false (CliCert.current_inv h)).2.2.2.2.2.2.2.1
+  have hb := (CliCert.current_good h).hang
   intro he
   have : badHang current s = true := by
     simp only [badHang, quiescent, hk, he, List.isEmpty_nil, Bool.and_true, Bool.true_and,
@@ -49,36 +62,66 @@ theorem no_hang {s : St} (h : Reachable (sys current) s) (hk : kActive s = true)
     · exact Or.inr ⟨h1, h2⟩
   rw [this] at hb; cases hb
 
-/-- 3. A single call hands its request to a writer at most four times (`retry := 3`). -/
-theorem transmissions_le_4 {s : St} (h : Reachable (sys current) s) : s.ntx ≤ 4 := by
-  have := (CliCert.bad_false (CliCert.current_inv h)).2.2.2.2.1
+/-- 3. A single call hands its request to a writer at most `retries + 1` times … -/
+theorem transmissions_le_budget {s : St} (h : Reachable (sys current) s) : s.ntx ≤ current.retries + 1 := by
+  have := (CliCert.current_good h).tx
   simpa [badTx] using this
+
+/-- … and the budget of the model (which the harness compares with the one it observes on the real code)
+    is four transmissions. -/
+theorem budget_is_four : current.retries + 1 = 4 := rfl
+
+theorem transmissions_le_4 {s : St} (h : Reachable (sys current) s) : s.ntx ≤ 4 :=
+  budget_is_four ▸ transmissions_le_budget h
 
 /-- 4. Once the client is closed, calls fail and do not dial: a call that takes the mutex after
     `Close()` has set `c.closed` neither returns a response nor reaches the dial. -/
 theorem closed_stays_closed {s : St} (h : Reachable (sys current) s) (hb : s.born = true) :
     s.kp ≠ .retOk ∧ s.kp ≠ .rc5 := by
-  have := (CliCert.bad_false (CliCert.current_inv h)).2.2.2.2.2.1
+  have := (CliCert.current_good h).afterClose
   simp only [badAfterClose, hb, Bool.true_and, Bool.or_eq_false_iff, beq_eq_false_iff_ne] at this
   exact this
 
 /-- 5. Recovery. A call that starts on an open client while the read loop is not in the middle of
-    processing a failed `Recv` (`settled`: not between the failed `Recv` and the `cancel` of its
-    `terminate` — a call that starts there overlaps the detection of the fault), and during which no
-    fault, no cancellation and no `Close()` occurs (`clean`), does not end in an error: whatever
-    state the previous faults left behind — dead connection, nil connection, late responses, a write
-    error just reported to the previous call — it dials if needed and gets its own response
-    (`no_stale_delivery`). `recovers_needs_settled` shows that the precondition on the read loop
-    cannot be dropped. -/
+    processing a failed `Recv` on a live connection (`settled`: not between the failed `Recv` and the `cancel`
+    of its `terminate` — a call that starts there overlaps the detection of the fault), and during which no
+    fault, no cancellation and no `Close()` occurs (`clean`), does not end in an error, whatever state
+    the previous faults left behind — dead connection, nil connection, late responses, a write error
+    just reported to the previous call. `recovers_needs_settled` shows that the precondition on the read
+    loop cannot be dropped. -/
 theorem recovers {s : St} (h : Reachable (sys current) s) (hc : s.clean = true) : s.kp ≠ .retErr := by
-  have := (CliCert.bad_false (CliCert.current_inv h)).2.2.2.2.2.2.1
+  have := (CliCert.current_good h).recover
   simpa [badRecover, hc] using this
+
+/-- 5b. … it is never blocked: as long as it has not returned, some step of the client's own goroutines is
+    enabled, or a write is in progress, or the server owes an answer. -/
+theorem clean_call_not_blocked {s : St} (h : Reachable (sys current) s) (hc : s.clean = true)
+    (hk : kActive s = true) : progress current s ≠ [] := by
+  have hb := (CliCert.current_good h).blocked
+  simp only [badCleanBlocked, hc, hk, Bool.true_and, Bool.or_eq_false_iff] at hb
+  intro he
+  rw [he] at hb
+  exact absurd hb.1 (by decide)
+
+/-- 5c. … and it SUCCEEDS: from any reachable state with a clean call in progress, every maximal run of
+    progress steps (any interleaving of the client's goroutines, the transport and the server) ends with the
+    call returning a response — its own, by `C10.no_stale_delivery` — after at most `measure s` steps. -/
+theorem clean_call_succeeds {s : St} (h : Reachable (sys current) s) (hc : s.clean = true)
+    (hk : kActive s = true) : CliCert.Succeeds current s :=
+  CliCert.clean_succeeds h hc hk
+
+/-- 5d. Progress terminates: every progress step of every reachable state decreases `measure`; no run of
+    progress steps from a reachable state is longer than its measure. (So the states "in which nothing can
+    move" of `no_stuck` / `no_hang` / `abandoned_conn_drains` are reached whenever the environment pauses.) -/
+theorem progress_terminates {s : St} (h : Reachable (sys current) s) :
+    (∀ t ∈ progress current s, measure t < measure s) ∧ ∀ n, CliCert.Run current s n → n ≤ measure s :=
+  ⟨fun _ ht => CliCert.measure_decreases h ht, fun _ hr => CliCert.run_bounded hr h⟩
 
 /-- 6a. Goroutines of the current connection, in full: when nothing is running (no call, no `Close()`
     in progress, no enabled step of the client's goroutines) and the connection has been cancelled or
     the client closed, the read loop and the write loop have ended. -/
 theorem no_stuck {s : St} (h : Reachable (sys current) s) : badStuck current s = false :=
-  (CliCert.bad_false (CliCert.current_inv h)).2.2.2.2.2.2.2.2.2.1
+  (CliCert.current_good h).stuck
 
 /-- the full statement of "a closed client / a cancelled connection leaves no goroutine behind". -/
 def C11_no_stuck_full : Prop := ∀ s, Reachable (sys current) s → badStuck current s = false
@@ -87,13 +130,13 @@ theorem no_stuck_full : C11_no_stuck_full := fun _ h => no_stuck h
 
 /-- no connection is ever installed (and kept) after `Close()` has set `c.closed`. -/
 theorem no_conn_after_close {s : St} (h : Reachable (sys current) s) : s.raced = false :=
-  (CliCert.bad_false (CliCert.current_inv h)).2.2.2.2.2.2.2.2.2.2
+  (CliCert.current_good h).raced
 
 /-- 6b. Hand-off. Whenever `reconnect` drops a connection (`c.conn = nil`), that connection is closed
     and either fully terminated or inside the `terminate` of a `Close()` that holds a pointer to it. -/
 theorem handoff_ok {s : St} (h : Reachable (sys current) s) (hk : s.kp = .rc4) (hh : s.has = true) :
     handoffOk s = true := by
-  have := (CliCert.bad_false (CliCert.current_inv h)).2.2.2.2.2.2.2.2.1
+  have := (CliCert.current_good h).handoff
   simpa [badHandoff, hk, hh] using this
 
 /-- 6c. Goroutines of every connection the client has let go of, however many there are: from the
@@ -125,6 +168,11 @@ theorem never_partial_response (max : Nat) (m : Bytes) (hm : Framed m) :
 example : ∃ s, Reachable (sys current) s ∧ s.clean = true ∧ s.kp = .retOk :=
   ⟨endOf (sys current) [0, 0, 0, 0, 0, 0, 0, 0, 0, 0, 2, 0, 0, 3, 0, 0],
     reachable_endOf _ (by decide +kernel), by decide +kernel, by decide +kernel⟩
+
+/-- a clean call in progress (waiting for the server's answer): `clean_call_succeeds` applies to it. -/
+example : ∃ s, Reachable (sys current) s ∧ s.clean = true ∧ kActive s = true ∧ s.kp = .k6 :=
+  ⟨endOf (sys current) [0, 0, 0, 0, 0, 0, 0, 0, 0, 0, 2, 0, 0],
+    reachable_endOf _ (by decide +kernel), by decide +kernel, by decide +kernel, by decide +kernel⟩
 
 /-- a call that uses up its budget: four transmissions, then an error. -/
 example : ∃ s, Reachable (sys current) s ∧ s.ntx = 4 ∧ s.kp = .retErr :=
